@@ -142,7 +142,7 @@ def _execute(sc, sim, out):
             return np.array([ref_interp_ap(W.aps, conv[i, j], theta[j] * dist * 1000.) for j in range(nf)]) / dist ** 2
     else:
         out.probe('free_scale')
-    delta = 1e-13 if fmt == 1 else (1e-7 if spec['dtype'] == 'f8' else 3e-7)
+    delta = 1e-12 if fmt == 1 else (1e-7 if spec['dtype'] == 'f8' else 3e-7)
     lines = []
     truth_info = []
     for pi, p in enumerate(sc['plants']):
@@ -212,6 +212,7 @@ def _execute(sc, sim, out):
                         pass
             sens_av = np.sum(np.abs(kf * w) / m11)
             sens_sc = 0.0
+            condN = 1.0
         else:
             A = np.stack([kf, -2 * np.ones(len(fj))], 1)
             N = A.T @ (w[:, None] * A)
@@ -222,12 +223,13 @@ def _execute(sc, sim, out):
             P = np.linalg.inv(N) @ (A.T * w[None, :])
             sens_av = np.sum(np.abs(P[0]))
             sens_sc = np.sum(np.abs(P[1]))
+            condN = float(np.linalg.cond(N))
         if others and min(others) < 1.0:
             out.probe('degenerate_discarded')
             continue
         name = 'p%d' % pi
         lines.append(' '.join([name, '0.0', '0.0'] + ['%d' % v for v in valid] + ['%.17e %.17e' % (a, b) for a, b in zip(flux, err)]) + '\n')
-        truth_info.append({'name': name, 'm': m, 'av0': av0, 's0': s0, 'w': w, 'sens_av': sens_av, 'sens_sc': sens_sc, 'n_fit': len(fj),
+        truth_info.append({'name': name, 'm': m, 'av0': av0, 's0': s0, 'w': w, 'sens_av': sens_av, 'sens_sc': sens_sc, 'condN': condN, 'n_fit': len(fj),
                            'kinds': sorted(set(kinds)), 'av_pick': p['av_pick'], 'd_pick': p['d_pick'] if apdep else 'scale'})
         if p['av_pick'] in ('lo', 'hi'):
             out.probe('planted_av_at_range_end')
@@ -314,8 +316,12 @@ def _execute(sc, sim, out):
         want = W.names[t['m']]
         out.compared('planting')
         chi_bound = 10 * np.sum(t['w']) * delta ** 2 + 1e-6
-        tol_av = 10 * delta * t['sens_av'] + 1e-9
-        tol_sc = (10 * delta * t['sens_sc'] + 1e-9) if not apdep else 1e-6
+        # the closed-form 2x2 normal equations lose eps x cond(A^T W A) in double precision (very unequal weights and a large
+        # A_V make that visible: 2e-9 on A_V = 29.5 was observed with weights spanning 4 decades); first-order term + that
+        scale_ = max(1.0, abs(t['av0']), abs(t['s0']))
+        round_ = 100 * 2.2e-16 * t['condN'] * scale_
+        tol_av = 10 * delta * t['sens_av'] + 1e-9 + round_
+        tol_sc = (10 * delta * t['sens_sc'] + 1e-9 + round_) if not apdep else 1e-6
         what = 'source %s planted from model %s at A_V %.6g, %s %.6g' % (t['name'], want, t['av0'], 'log10 d' if apdep else 'scale', t['s0'])
         if first != want:
             k = [str(x).strip() for x in rec.model_name].index(want) if want in [str(x).strip() for x in rec.model_name] else -1
